@@ -345,7 +345,7 @@ Qed.
 (** ** Scanner.Scan after Valuer.Value *)
 (** Types that are their own sql.Scanner take the short cut at the top of Scanner.Scan. *)
 Definition self_scanning (b : base) : bool :=
-  match b with BCustom (CValuer | CNull | CUuid) => true | _ => false end.
+  match b with BCustom (CValuer | CNull | CUuid | CTri) => true | _ => false end.
 
 Lemma scanner_nonnull e d s : self_scanning (d_base d) = false -> s <> SNull ->
   scanner e d s = rbind (scan_valid e d s) (fun g => Ok (FVal g)).
@@ -388,9 +388,22 @@ Proof.
   - eapply nonnull_src; [|exact Hr]. eapply plain_nonnull; eauto.
 Qed.
 
-Lemma scanner_null e d : scanner e d SNull = Ok (zero_field d).
+(** What NULL is scanned into: the zero value (nil for a pointer), except for a non-pointer type that is
+    its own sql.Scanner and gives NULL a meaning of its own. *)
+Definition null_image (d : desc) : fval :=
+  if d_ptr d then FNil
+  else match d_base d with BCustom CTri => FVal (GInt 2) | b => FVal (zero_of b) end.
+
+Lemma scanner_null_image e d : scanner e d SNull = Ok (null_image d).
 Proof.
-  unfold scanner, scanner_gen, zero_field. destruct (d_base d) as [| | | | | | | |[]]; reflexivity.
+  unfold scanner, scanner_gen, null_image. destruct (d_base d) as [| | | | | | | |[]]; destruct (d_ptr d); reflexivity.
+Qed.
+
+Lemma scanner_null e d : (d_ptr d = true \/ d_base d <> BCustom CTri) -> scanner e d SNull = Ok (zero_field d).
+Proof.
+  intros H. rewrite scanner_null_image. unfold null_image, zero_field.
+  destruct (d_ptr d); [reflexivity|]. destruct H as [H|H]; [discriminate|].
+  destruct (d_base d) as [| | | | | | | |[]]; try reflexivity. congruence.
 Qed.
 
 Lemma take_pad_id n : forall s, String.length s = n -> take_pad n s = s.
@@ -402,6 +415,32 @@ Qed.
 Lemma fit16_id s : String.length s = 16%nat -> fit16 s = s.
 Proof. apply take_pad_id. Qed.
 
+(** The tri-state type: "unanswered" is written as NULL and NULL is read as "unanswered" (not as the zero
+    value "no"); 0 and 1 travel as integers. *)
+Lemma tri_rt e ptr z c p s :
+  gval_ok e (BCustom CTri) (GInt z) = true ->
+  negb (ptr && Z.eqb z 2) = true ->
+  col_matches (mk_desc (BCustom CTri) ptr TNone) c p = true ->
+  repr e c p (valuer (mk_desc (BCustom CTri) ptr TNone) (Dyn (BCustom CTri) ptr (FVal (GInt z)))) = Some s ->
+  scanner e (mk_desc (BCustom CTri) ptr TNone) s = Ok (FVal (GInt z)).
+Proof.
+  intros Hg Hnp Hc Hr. cbn [gval_ok] in Hg. apply andb_prop in Hg as [H0 H2].
+  apply Z.leb_le in H0. apply Z.leb_le in H2. cbn [valuer d_tag] in Hr.
+  assert (Hz : z = 0 \/ z = 1 \/ z = 2) by lia.
+  destruct Hz as [-> | [-> | ->]]; cbn [Z.eqb Pos.eqb] in Hr.
+  3: { apply null_src in Hr. subst. destruct ptr; [discriminate Hnp|reflexivity]. }
+  all: assert (P0 : print_Z 0 = "0"%string) by (vm_compute; reflexivity);
+       assert (P1 : print_Z 1 = "1"%string) by (vm_compute; reflexivity).
+  all: destruct p; cbn [repr proto_src] in Hr; try (inv Hr; reflexivity).
+  all: match type of Hr with (if negb ?b then _ else _) = _ => destruct b eqn:Hst; cbn [negb] in Hr; [|discriminate] end.
+  all: destruct c as [cw u| | | | |m]; try discriminate; try (inv Hr; unfold scanner, scanner_gen; cbn [d_base d_ptr scan_tri rbind]; rewrite ?P0, ?P1; reflexivity).
+  all: cbn [col_matches d_base] in Hc; repeat (apply andb_prop in Hc as [Hc ?]); (destruct u; [discriminate|]).
+  all: cbn [storable] in Hst; apply andb_prop in Hst as [Hlo Hhi]; apply Z.leb_le in Hlo; apply Z.ltb_lt in Hhi.
+  all: inv Hr; unfold scanner, scanner_gen; cbn [d_base d_ptr scan_tri rbind].
+  all: rewrite wrap_s_id_col by (try assumption; lia).
+  all: destruct (cw =? 24); reflexivity.
+Qed.
+
 Theorem scan_roundtrip e d x c p s :
   env_laws e -> desc_ok d = true -> fval_ok e d x = true -> col_matches d c p = true ->
   repr e c p (valuer d (dyn_of d x)) = Some s -> scanner e d s = Ok x.
@@ -410,7 +449,7 @@ Proof.
   destruct d as [b ptr tg]. destruct x as [|g].
   - (* nil pointer *)
     cbn [fval_ok d_ptr] in Hx. subst ptr. cbn [valuer dyn_of d_base d_ptr] in Hr.
-    apply null_src in Hr. subst. rewrite scanner_null. reflexivity.
+    apply null_src in Hr. subst. rewrite scanner_null by (left; reflexivity). reflexivity.
   - cbn [fval_ok d_base d_ptr] in Hx. apply andb_prop in Hx as [Hx Hnp]. unfold dyn_of in Hr. cbn [d_base d_ptr] in Hr.
     destruct b as [w|w| | | | | | |cu].
     (* plain kinds *)
@@ -441,7 +480,7 @@ Proof.
              | repr _ _ _ (if negb ?q && is_zero ?g then _ else _) = _ =>
                  assert (Hp : q = false) by (destruct q; [|reflexivity]; apply andb_prop in Hd as [_ Hd']; discriminate); subst q;
                  cbn [negb andb] in Hr; destruct (is_zero g) eqn:Hz;
-                 [ apply null_src in Hr; subst; rewrite scanner_null; unfold zero_field; cbn [d_ptr d_base];
+                 [ apply null_src in Hr; subst; rewrite scanner_null by (right; discriminate); unfold zero_field; cbn [d_ptr d_base];
                    erewrite <- is_zero_zero by eauto; reflexivity
                  | eapply scanner_plain; eauto ]
              end.
@@ -456,7 +495,7 @@ Proof.
         unfold scan_valid, scan_valid_gen. cbn [d_base]. rewrite Hb. reflexivity.
       * (* a nil slice: only in a non-pointer field *)
         assert (Hp : ptr = false) by (destruct ptr; [discriminate|reflexivity]). subst ptr.
-        cbn [valuer] in Hr. apply null_src in Hr. subst. rewrite scanner_null. reflexivity.
+        cbn [valuer] in Hr. apply null_src in Hr. subst. rewrite scanner_null by (right; discriminate). reflexivity.
     + (* time *)
       destruct g; try discriminate.
       destruct tg; try discriminate; cbn [valuer d_tag plain] in Hr.
@@ -464,7 +503,7 @@ Proof.
         erewrite time_rt; eauto. reflexivity.
       * assert (Hp : ptr = false) by (destruct ptr; [discriminate|reflexivity]). subst ptr.
         cbn [negb andb] in Hr. destruct (is_zero (GTime t)) eqn:Hz.
-        -- apply null_src in Hr. subst. rewrite scanner_null. unfold zero_field. cbn [d_ptr d_base].
+        -- apply null_src in Hr. subst. rewrite scanner_null by (right; discriminate). unfold zero_field. cbn [d_ptr d_base].
            erewrite <- (is_zero_zero e BTime) by eauto. reflexivity.
         -- cbn [plain] in Hr.
            rewrite scanner_nonnull; [| reflexivity | eapply nonnull_src; [|exact Hr]; discriminate].
@@ -487,6 +526,8 @@ Proof.
         assert (Hfit : fit16 pl = pl) by (apply fit16_id; apply Nat.eqb_eq; exact Hx).
         destruct (text_src e c p _ pl s (or_intror eq_refl) Hr) as [-> | [-> _]];
           unfold scanner, scanner_gen; cbn [d_base]; rewrite Hfit; reflexivity.
+      * (* tri-state: 2 <-> NULL, handed to the type's own Scan *)
+        eapply tri_rt; eauto.
 Qed.
 
 (** * Whole rows: BuildStruct / parseBinlogRow after unbuildStruct *)
@@ -640,6 +681,7 @@ Definition as_field (v : dyn) : fval :=
   | DynNil => FNil
   | Dyn BBytes ptr (FVal (GBytes None)) => if ptr then FVal (GBytes (Some ""%string)) else FNil
   | Dyn _ _ (FVal (GBytes None)) => FNil
+  | Dyn (BCustom CTri) _ (FVal (GInt z)) => if Z.eqb z 2 then FNil else FVal (GInt z)   (* "unanswered" denotes NULL *)
   | Dyn _ _ fv => fv
   end.
 
@@ -653,11 +695,17 @@ Proof.
   intros Hd Ht. destruct v as [|b ptr fv]; [split; [reflexivity|left; reflexivity]|].
   cbn [dyn_typed] in Ht. apply andb_prop in Ht as [Hb Hfv]. apply base_eqb_eq in Hb. subst b.
   destruct fv as [|g].
-  { replace (as_field (Dyn (d_base d) ptr FNil)) with FNil by (destruct (d_base d); reflexivity).
+  { replace (as_field (Dyn (d_base d) ptr FNil)) with FNil by (destruct (d_base d) as [| | | | | | | |[]]; reflexivity).
     split; [rewrite valuer_nil; reflexivity | left; reflexivity]. }
   apply andb_prop in Hfv as [Hg Hz].
   destruct d as [b dptr tg]. cbn [d_base d_ptr d_tag] in *. unfold dyn_of. cbn [d_base d_ptr].
-  destruct b as [w|w| | | | | | |[]]; destruct g as [z|f|bb|st|[t0|]|t|pl]; try discriminate Hg;
+  destruct (base_eqb b (BCustom CTri)) eqn:Etri.
+  { apply base_eqb_eq in Etri. subst b. destruct g as [z| | | | | |]; try discriminate Hg.
+    destruct tg; try discriminate Hd. cbn [as_field]. destruct (z =? 2) eqn:E2.
+    - split; [cbn [valuer]; rewrite E2; destruct ptr, dptr; reflexivity | left; reflexivity].
+    - split; [reflexivity | right; eexists; split; [reflexivity|]; cbn [fval_ok d_base d_ptr]; rewrite Hg, E2;
+                            destruct dptr; reflexivity]. }
+  destruct b as [w|w| | | | | | |[]]; try discriminate Etri; destruct g as [z|f|bb|st|[t0|]|t|pl]; try discriminate Hg;
     cbn [as_field].
   (* a nil slice or an invalid NullString *)
   all: try (destruct ptr; (split; [destruct tg; try discriminate Hd; try reflexivity; destruct dptr; reflexivity
@@ -694,7 +742,7 @@ Proof.
   - rewrite Hnil in *. assert (Hn : valuer d (dyn_of d FNil) = DNull) by (destruct d; reflexivity).
     rewrite Hn in *. cbn in Hpf. inv Hpf. cbn [field_to_value].
     destruct (d_ptr d) eqn:Hp; [right | left; split; reflexivity].
-    exists FNil. rewrite scanner_null. unfold zero_field. rewrite Hp. split; [reflexivity|]. congruence.
+    exists FNil. rewrite scanner_null by (left; exact Hp). unfold zero_field. rewrite Hp. split; [reflexivity|]. congruence.
   - rewrite Hg in *. right. exists (FVal g). split; [|congruence].
     eapply (scan_roundtrip e d (FVal g) ColBlob PProto); eauto.
 Qed.
